@@ -143,7 +143,7 @@ func CheckStakingState(s *Snap) []Finding {
 // this state: unstaking and paused markers, a validator record's own deferred heights, the
 // unstaking a max-pause will start, and the end of the running non-sign window.
 func PendingHorizon(s *Snap) uint64 {
-	h := s.Height
+	h := s.Height - 1 // nothing pending: the probe is just the next block
 	up := func(x uint64) {
 		if x > h {
 			h = x
